@@ -28,15 +28,24 @@ ALL = list(itertools.product(range(5), repeat=3))
 def delete(tier, sr, t, p):
     h("%s_purge_delete_%s_%s_t%d" % (tier, sn(sr), pn(p), t), U, "purge::step_delete_entity(%d, %s, %s)" % (t, B(sr), P(p)))
 def atomic(tier, sr, t, p):
-    h("%s_purge_atomic_%s_%s_t%d" % (tier, sn(sr), pn(p), t), U, "purge::step_delete_atomic_maintain(%d, %s, %s)" % (t, B(sr), P(p)))
+    # arbitrary handle only where the target's deletion is already requested (see purge.rs)
+    exact = p[t] not in (3, 4)
+    if exact and p[t] == 1:
+        return
+    h("%s_purge_atomic%s_%s_%s_t%d" % (tier, "x" if exact else "", sn(sr), pn(p), t), U, "purge::step_delete_atomic_maintain(%d, %s, %s, %s)" % (t, B(sr), P(p), B(exact)))
 def batch(tier, sr, t, u, p):
     h("%s_purge_batch_%s_%s_t%d_u%d" % (tier, sn(sr), pn(p), t, u), U, "purge::step_delete_entities(%d, %d, %s, %s)" % (t, u, B(sr), P(p)))
 def maintain(tier, sr, p):
     h("%s_purge_maintain_%s_%s" % (tier, sn(sr), pn(p)), U, "purge::step_maintain(%s, %s)" % (B(sr), P(p)))
-def delall(tier, sr, p):
-    h("%s_purge_all_%s_%s" % (tier, sn(sr), pn(p)), U, "purge::step_delete_all(%s, %s)" % (B(sr), P(p)))
-def builder(tier, sr, p):
-    h("%s_purge_builder_%s_%s" % (tier, sn(sr), pn(p)), U, "purge::step_builder_dropped(%s, %s)" % (B(sr), P(p)))
+# `g` variants: the generations are the constants 3, 5, 7 (contents, handles' generations and
+# everything else stay symbolic). Measured: with symbolic generations `is_alive` branches on a
+# symbolic sign, the allocator's bit sets get symbolic membership, and delete_all / a builder on a
+# reused index / deferred deletes / lazily built entities that die before maintain cost
+# 1-2.5 M symex steps and 12-47 GB; with constant generations the same queries take 25-50 s.
+def delall(tier, sr, p, g=True):
+    h("%s_purge_all%s_%s_%s" % (tier, "g" if g else "", sn(sr), pn(p)), U, "purge::step_delete_all_g(%s, %s, %s)" % (B(sr), P(p), B(g)))
+def builder(tier, sr, p, g=False):
+    h("%s_purge_builder%s_%s_%s" % (tier, "g" if g else "", sn(sr), pn(p)), U, "purge::step_builder_dropped_g(%s, %s, %s)" % (B(sr), P(p), B(g)))
 def create(tier, sr, k, p):
     h("%s_purge_create%d_%s_%s" % (tier, k, sn(sr), pn(p)), U, "purge::step_create(%d, %s, %s)" % (k, B(sr), P(p)))
 
@@ -48,21 +57,24 @@ delete("q", True, 1, (0, 0, 3))
 for (t, u, p) in [(0, 1, (0, 0, 3)), (0, 1, (0, 1, 0)), (0, 1, (1, 0, 2))]:
     batch("q", False, t, u, p)
 batch("q", True, 0, 1, (0, 1, 0))
-for p in [(0, 0, 3), (1, 1, 0), (0, 3, 0), (3, 4, 0)]:
+for p in [(0, 0, 3), (0, 2, 1), (0, 3, 0), (3, 4, 0)]:
     atomic("q", False, 1, p)
 for p in [(3, 0, 4), (0, 3, 2), (4, 1, 3), (2, 2, 0), (3, 3, 3), (0, 0, 0), (1, 4, 0)]:
     maintain("q", False, p)
 maintain("q", True, (3, 0, 4))
-# delete_all (join over the entities resource + collect + delete_entities) does not finish: > 1 M
-# symex steps, 19 GB even with one occupied index; its two halves are decided separately (join
-# over entities: C02/C06; delete_entities: here). One harness is kept for manual runs.
-delall("x", False, (1, 0, 1))
+# delete_all: with symbolic generations > 1 M symex steps and 19 GB; `g` variants only
+for p in [(0, 2, 3), (1, 0, 4), (2, 2, 2), (0, 0, 0), (3, 1, 2)]:
+    delall("q", False, p)
+delall("q", True, (0, 2, 3))
+delall("x", False, (1, 0, 1), g=False)
 # a dropped builder: patterns WITHOUT a dead index (the builder's entity then takes the next unused
 # index, a constant; with a dead index on the free list the index that comes out of the
 # allocator's Option-returning pop is symbolic for CBMC and builder + 2 inserts + deferred delete
 # + maintain on a symbolic index exceeds 16 GB)
 for p in [(0, 2, 4), (0, 3, 0)]:
     builder("q", False, p)
+for p in [(0, 3, 1), (1, 1, 1), (2, 1, 4)]:
+    builder("q", False, p, g=True)
 builder("x", False, (0, 3, 1))
 for k in range(5):
     create("q", False, k, (1, 0, 3))
@@ -71,7 +83,6 @@ create("q", False, 1, (0, 2, 0))
 create("q", True, 0, (2, 1, 1))
 create("q", False, 1, (4, 3, 1))
 # measured heavy (> 16 GB): kept for manual runs
-atomic("x", False, 1, (2, 2, 1))
 batch("x", False, 1, 1, (3, 0, 2))
 
 # ---- thorough tier (adds to the quick tier; sized so that it can be validated in one sitting)
@@ -92,18 +103,21 @@ for (t, u) in [(1, 0), (2, 0), (0, 2), (1, 2)]:
 for i, p in enumerate(ALL):
     if i % 5 == 0:
         maintain("t", False, p)
-    if i % 9 == 3 and 1 not in p:
-        builder("t", False, p)
+    if i % 9 == 3:
+        builder("t", False, p, g=(1 in p))
+    if i % 7 == 1:
+        delall("t", False, p)
     if i % 8 == 3:
         create("t", False, i % 5, p)
 for p in PB:
     maintain("t", True, p)
     delete("t", True, 1, p)
 # ---- C09: lazy actions (kind: 0 insert A, 1 remove A, 2 insert B, 3 observer, 4 nested, 5 lazy builder, 6 lazy builder + deferred delete, 7 lazy builder + immediate delete)
-def lazy(tier, sr, acts, p):
+def lazy(tier, sr, acts, p, g=False):
     a = list(acts) + [(255, 0)] * (3 - len(acts))
     nm = "".join("%d%d" % (k, t) for (k, t) in acts)
-    h("%s_lazy_%s_%s_a%s" % (tier, sn(sr), pn(p), nm), U, "lazy::lazy_step([%s], %s, %s)" % (", ".join("(%d, %d)" % x for x in a), B(sr), P(p)))
+    g = g or any(k in (6, 7) for (k, t) in acts)   # kinds 6 / 7 only with constant generations
+    h("%s_lazy%s_%s_%s_a%s" % (tier, "g" if g else "", sn(sr), pn(p), nm), U, "lazy::lazy_step_g([%s], %s, %s, %s)" % (", ".join("(%d, %d)" % x for x in a), B(sr), P(p), B(g)))
 
 QL = [
     ([(3, 0), (0, 1)], (4, 0, 2)),       # observer, then insert on a live entity; pending delete + pending create
@@ -116,21 +130,21 @@ QL = [
     ([(2, 2), (3, 0)], (1, 3, 0)),       # insert into the setup-created storage
     ([(3, 0), (4, 0), (0, 1)], (2, 0, 4)),
     ([(0, 0), (1, 1), (2, 2)], (0, 0, 0)),
+    # kinds 6 / 7: a lazily built entity that is DEAD when its queued insertion runs (deferred or
+    # immediate delete before maintain); with symbolic generations 2.4 M symex steps, > 12 GB
+    ([(7, 0), (3, 0)], (0, 1, 2)),
+    ([(6, 0), (3, 0)], (0, 1, 2)),
+    ([(3, 0), (7, 0)], (1, 1, 0)),
+    ([(6, 0), (0, 1)], (0, 0, 3)),
 ]
-# kinds 6 / 7 (a lazily built entity that is DEAD when its queued insertion runs: deferred or
-# immediate delete before maintain) cost 2.4 M symex steps and > 12 GB each, whatever the pattern
-# and even as the only action: manual runs only. Seeded change C09_b needs exactly this trigger
-# and is therefore MISSED (see DESIGN.md).
-lazy("x", False, [(6, 0)], (0, 1, 2))
-lazy("x", False, [(7, 0)], (0, 0, 0))
 for acts, p in QL:
     lazy("q", False, acts, p)
 lazy("q", True, [(2, 1), (3, 0)], (0, 0, 3))
 PL = [(0, 0, 0), (4, 0, 2), (0, 3, 1), (2, 2, 3), (1, 4, 0), (3, 0, 2)]
-for k0 in range(6):
-    for k1 in range(6):
+for k0 in range(8):
+    for k1 in range(8):
         for t1 in (0, 1):
-            p = PL[(k0 * 6 + k1 + t1) % len(PL)]
+            p = PL[(k0 * 8 + k1 + t1) % len(PL)]
             lazy("t", False, [(k0, 1), (k1, t1)], p)
 src = "// GENERATED by tools/gen_variants.py -- do not edit\n" + "\n".join(out) + "\n\npub const REGISTRY: &[(&str, fn())] = &[\n"
 for n in names:
